@@ -15,7 +15,7 @@ CONSTANTS
   TreeIds = {11, 12}
   SparseIds = {}
   XP = "respect"
-  Strict = FALSE
+  Strict = "none"
   Emit = FALSE
 INVARIANTS Inv_C23
 VIEW View
